@@ -18,6 +18,7 @@ ENTRIES = {
     "lnd": "dirsymlink->outside", "self.rs": "symlink->self.txt",
     "d1/d2/d3/d4/d5/d6/d7/d8/d9/d10/d11/d12/deep.rs": "file", ("long_" + "n" * 180 + ".rs"): "file", "dir.with.dots/x.y.rs": "file", ".hidden/h.rs": "file",
     "a.tmp": "file", "a.bak": "file", "a": "file", "a.rs.new": "file", ".a.rs.swp": "file",
+    ".rs": "file", "n1/.rs": "file", "..rs": "file", ".rsx": "file", "rs": "file",      # a name that is only an extension has no extension
     "a.rs.tmp": "file", "a.rs~": "file", "é.rs.tmp": "symlink->outside/o.rs", "sp ace.rs.tmp": "dirsymlink->outside",
 }
 EXT_LISTS = {"omitted": None, "[rs]": ["rs"], "[rs,rsx]": ["rs", "rsx"], "[RS]": ["RS"], "[txt]": ["txt"]}
